@@ -26,8 +26,8 @@ endpoint after `_handle_accept` (`realAcceptor`):
   initiator there would propagate into the acceptor's handler (`nestedRaise`: outside the model);
 * what the test sends on the acceptor's behalf (`reply`) does NOT go through `send_msg`: it is encoded
   with the acceptor's session (consuming its `next_num_out`; `raw_seq_num` when the message carries 34)
-  and handed to the initiator – no state check, no TestRequest bookkeeping, NO journal row, and the
-  text is encoded as UTF-8 instead of latin-1 (`replySkew`).
+  and handed to the initiator (latin-1 bytes, as `send_msg`; fix bcdee93) – no state check, no TestRequest
+  bookkeeping, NO journal row.
 -/
 namespace AsyncFix.Tester
 
@@ -85,8 +85,7 @@ inductive Outcome
   | accRaised      -- the acceptor's `_process_message` let an exception escape (loop aborted)
   | nestedRaise    -- the initiator's nested `_process_message` let one escape into the acceptor's handler
   | outOfFuel      -- the `while self.acceptor_rcv_que` loop did not end within the fuel
-  | replyRaised    -- `reply` raised (encode, or its own decode of UTF-8 bytes, or the initiator)
-  | unmodelled     -- non-ASCII reply whose UTF-8 checksum happens to collide
+  | replyRaised    -- `reply` raised (the encoder, `.encode("latin-1")`, or the initiator)
   deriving DecidableEq, Repr
 
 structure TRes where
@@ -151,27 +150,14 @@ def replySeq (m : Msg) : M Int :=
     M.int v
   else encodeSeq m
 
-/-- by how much the byte sum of the UTF-8 encoding exceeds the sum of code points the encoder put into
-CheckSum, mod 256 (code points 128-191 become `C2 xx`: +194; 192-255 become `C3 xx-0x40`: +131) -/
-def utf8Skew (f : Msg) : Nat :=
-  (f.tags.foldl (fun a p => p.2.toList.foldl (fun a c =>
-      if c.toNat < 128 then a else if c.toNat < 192 then a + 194 else a + 131) a) 0) % 256
-
-def isAscii (f : Msg) : Bool := f.tags.all fun p => p.2.toList.all fun c => c.toNat < 128
-
-/-- `await ft.reply(m)` (l.179-204), schema none.  Non-ASCII text: the frame is encoded as UTF-8 and
-then decoded with `silent=False`; when the byte sum no longer matches CheckSum the decode asserts and
-`reply` raises AFTER the acceptor's number was consumed. -/
+/-- `await ft.reply(m)` (l.179-204), schema none.  Text outside latin-1: `.encode("latin-1")` raises
+UnicodeEncodeError (a ValueError) AFTER the acceptor's number was consumed. -/
 def tReply (srI : Msg → Bool) (env : Env) (p : TPair) (m : Msg) : TRes :=
   match replySeq m p.ca with
   | ⟨.error ex, ca1, _⟩ => { pair := { p with ca := ca1 }, effA := [.raised ex], out := .replyRaised }
   | ⟨.ok seq, ca1, _⟩ =>
     let frame := buildFrame ca1.sess env.stamp m seq
-    if !frameLatin1 frame then { pair := { p with ca := ca1 }, out := .unmodelled }
-    else if !isAscii frame then
-      if utf8Skew frame != 0 then
-        { pair := { p with ca := ca1 }, effA := [.raised .assertion], out := .replyRaised }
-      else { pair := { p with ca := ca1 }, out := .unmodelled }
+    if !frameLatin1 frame then { pair := { p with ca := ca1 }, effA := [.raised .value], out := .replyRaised }
     else
       let (ci1, eI) := recv srI env p.ci frame
       { pair := queueWrites { p with ca := ca1 } ci1 eI, effI := eI, effA := [.write frame],
